@@ -69,8 +69,11 @@ CFGS = {
                       dict(NET, MaxCreds=1, RevIssuerChecked='FALSE')),
     "dev.resign": ("deviation: the list is not re-signed before it expires", _inv("ServedListValidAndFresh"), dict(SERVE, ResignBeforeExpiry='FALSE')),
     "dev.rowlock": ("deviation: Entry() without the row lock", _inv("SlotsUnique"), dict(ALLOC, RowLock='FALSE')),
+    "reach.dupretry": ("reachability: the retry-on-duplicate-key path of Entry() is taken in the model (the property is EXPECTED to be violated)",
+                       "PROPERTIES NeverDuplicate\n", ALLOC),
     # --- behaviour generation (descriptive model) ---------------------------------------------------------
     "gen.status": ("behaviour generation, status lists: one witness per distinct state", _inv("Emit"), dict(STATUS, **GEN)),
+    "gen.status.quick": ("behaviour generation, status lists, quick tier (one tick)", _inv("Emit"), dict(STATUS, MaxTicks=1, **GEN)),
     "gen.net": ("behaviour generation, network revocations incl. every forged document class", _inv("Emit"), dict(NET, MaxCreds=2, MaxForge=1, **GEN)),
     "gen.nodes": ("behaviour generation, two nodes and both mechanisms", _inv("Emit"), dict(NODES, **GEN)),
     "gen.sim": ("behaviour generation by simulation at the full bounds (2 issuers, 2 nodes, roll-over at B=3, both mechanisms, all forgeries)",
@@ -84,7 +87,8 @@ CFGS = {
 }
 # expected outcome of the deviation configs
 DEVIATIONS = {"dev.listissuer": "IssuerOnly", "dev.listissuer2": "RevokedIsPermanent", "dev.listsubject": "EntryOnlyFromNamedList",
-              "dev.revissuer": "IssuerOnly", "dev.resign": "ServedListValidAndFresh", "dev.rowlock": "SlotsUnique"}
+              "dev.revissuer": "IssuerOnly", "dev.resign": "ServedListValidAndFresh", "dev.rowlock": "SlotsUnique",
+              "reach.dupretry": "NeverDuplicate"}
 
 
 def cfg_name(key):
@@ -184,7 +188,7 @@ def with_sweep(b, consts):
 def generate(tier, seed, rnd):
     """-> list of (gen cfg key, [behaviours]) plus statistics."""
     quick = tier == "quick"
-    plan = [("gen.status", 70 if quick else 700), ("gen.net", 25 if quick else 200), ("gen.nodes", 25 if quick else 300)]
+    plan = [("gen.status.quick" if quick else "gen.status", 70 if quick else 700), ("gen.net", 25 if quick else 200), ("gen.nodes", 25 if quick else 300)]
     groups, stats = [], {}
     for key, n in plan:
         g = vlib.tlc("MCRevocation", cfg_name(key), workers=WORKERS, timeout=900)
@@ -249,9 +253,16 @@ def run(prop, tier, seed, replay=None):
                 rep.inconclusive.append("script %s: %s" % (r["id"], r["error"]))
             for v in r["violations"]:
                 rep.violation(dict(kind=v["kind"], site=v.get("site", "")), obj)
-        if obj.get("trace"):
-            acc, rej = vlib.validate_traces("TraceRevocation", cfg_name(obj["trace_cfg"]), [obj["trace"]])
-            print("trace validation: accepted=%d rejected=%s" % (acc, json.dumps(rej)))
+        if obj.get("trace_cfg"):
+            # the violation was seen by TLC on the recorded trace: validate the trace of THIS execution again
+            for r in res:
+                cut = min([v["step"] for v in r["violations"]] or [1 << 30])
+                tr = [e for e in (r.get("trace") or []) if e.get("step", 0) < cut]
+                acc, rej = vlib.validate_traces("TraceRevocation", cfg_name(obj["trace_cfg"]), [tr])
+                print("trace validation: accepted=%d rejected=%s" % (acc, json.dumps(rej)))
+                for x in rej:
+                    if x["kind"].startswith("invariant:") and x["kind"].split(":", 1)[1] in PROPERTY_INVARIANTS:
+                        rep.violation(dict(kind="trace-" + x["kind"], site=""), obj)
         return rep.finish()
 
     quick = tier == "quick"
@@ -278,8 +289,7 @@ def run(prop, tier, seed, replay=None):
         ga = vlib.tlc("MCRevocation", cfg_name("gen.alloc"), workers=WORKERS, timeout=600)
         if not ga.ok:
             raise Inconclusive("gen.alloc: %s %s" % (ga.violation, ga.error))
-        alloc_stats = dict(states=ga.distinct, complete_schedules_with_distinct_outcome=len(ga.printed),
-                           with_duplicate_key_retry=sum(1 for b in ga.printed if any(s.get("res") == "duplicate" for s in b)))
+        alloc_stats = dict(states=ga.distinct, complete_schedules_with_distinct_outcome=len(ga.printed))
         # vacuity guard: each check of the code, switched off, must break the invariant that depends on it
         for key, want in DEVIATIONS.items():
             d = vlib.tlc("MCRevocation", cfg_name(key), workers=WORKERS, timeout=600)
@@ -295,7 +305,7 @@ def run(prop, tier, seed, replay=None):
     # 2. behaviours of the descriptive model -> real code
     groups, gstats = generate(tier, seed, rnd)
     _lap(t0, "behaviours generated")
-    all_results, all_scripts, by_b = [], {}, {2: [], 3: []}
+    all_results, all_scripts = [], {}
     nbeh = 0
     for gi, (key, behs) in enumerate(groups):
         consts = cfg_consts(key)
